@@ -28,6 +28,11 @@ CHECKS["C10"] = ("exploration",
  "All ordered pairs of a ~1200-value boundary operand set (powers of two and neighbours to 2^130, int64/uint32/sqrt(2^63) boundaries, powers of ten, long decimal integers) are run through + - * / % and the six comparisons in all nine pairs of exact Go representations (int, *big.Int, json.Number) and compared with math/big; unary neg/abs/length/tostring/tojson/fromjson/tonumber likewise; the operands again as literals in query text; ~1300 number-literal shapes are passed through ten untouched-value forms, Marshal, tojson/tostring and the command and must print verbatim; float64 boundary classes must print as shortest round-trip valid JSON (NaN null, infinities saturated).",
  "Trusted: math/big, strconv. A non-integral quotient is only checked to be a number.",
  "DESIGN.md §4 C10")
+CHECKS["C02"] = ("model_checking",
+ "bounded-exhaustive enumeration of path expressions x update bodies x inputs against defining reductions (pure-Go reference model and in-engine jq text)",
+ "Every path expression of the path-safe grammar up to 4 nodes (thorough 5) on 15 inputs (4 with aliased Go structure, all arrays with spare capacity) is checked for the path/getpath law; every path expression up to 3 nodes x {=, |=, +=, //=, del} x 13 update bodies (copy, embed, duplicate, replace, drop, multi-output, erroring, nested deleting updates) x 11 inputs and every ordered pair and triple of 15-18 overlapping paths (self, ancestor/descendant, sibling, slice-in-slice, index-vs-slice, fractional bounds, out-of-range) per family x 3 operators x 6 bodies is compared (a) with the reference model, whose operators are always-copy Go folds of setpath/getpath/delpaths with deletions resolved against the original, and (b) with the defining reduction written as jq text and run in-engine; jq-defined consumers are interpreted from builtin.jq; setpath non-interference for all incomparable path pairs; 14 computed sources x 9 contexts must raise an invalid-path error; every case checks the input (incl. spare capacity) is untouched and the result acyclic.",
+ "Trusted: mc/refjq (RefGetpath/RefSetpath/RefDelpaths and the model's path tracking). Allocator address reuse after GC is not controllable and not explored.",
+ "DESIGN.md §4 C02")
 NOT_YET = "check not built yet (work in progress in this session); see DESIGN.md for the planned exploration"
 
 def commits():
